@@ -113,6 +113,21 @@ func nestFamilies(k int) []string {
 	}
 }
 
+// flat chains that stay far below the depth limits: Compile must stay linear in their length
+func chainFamilies(k int) []string {
+	rep := strings.Repeat
+	return []string{
+		"a" + rep("[last()]", k),
+		"a[1]" + rep("[last()]", k),
+		"a[b]" + rep("[last()]", k),
+		"//a" + rep("[position() = last()]", k),
+		"a" + rep("[b][1]", k),
+		"a" + rep("[@k]", k),
+		"(a)" + rep("[last()]", k),
+		"a" + rep("/b[last()]", k),
+	}
+}
+
 func genC06(g *genCtx) {
 	r := g.r
 	maps := []map[string]string{nil, nil, nil, {"p": "urn:p"}, {}, {"p": "", "q": "urn:q"}}
@@ -154,6 +169,11 @@ func genC06(g *genCtx) {
 	}
 	for _, k := range depths {
 		for _, e := range nestFamilies(k) {
+			g.add(&Case{Kind: "compile", Expr: e, Extra: "deep"})
+		}
+	}
+	for _, k := range []int{2, 5, 10, 20, 30, 40, 60, 100} {
+		for _, e := range chainFamilies(k) {
 			g.add(&Case{Kind: "compile", Expr: e, Extra: "deep"})
 		}
 	}
@@ -360,7 +380,7 @@ func genC16(g *genCtx) {
 		}
 	}
 	// regex functions against Go regexp
-	atoms := []string{"a", "b", "c", ".", "[ab]", "[^a]", "\\d", "x"}
+	atoms := []string{"a", "b", "c", ".", "[ab]", "[^a]", "\\d", "x", "\\p{L}", "\\pL", "\\P{N}", "[\\p{Lu}b]", "\\w", "[[:alpha:]]", "\\x61", "(?i:A)", "\\Qa.\\E", "a{1,2}", "\\bab"}
 	genRe := func() string {
 		var gen func(d int) string
 		gen = func(d int) string {
